@@ -28,7 +28,7 @@ from ..workload import (
 PROPERTY = "C12"
 LEVEL = "exploration"
 RTOL = 1e-9
-TIERS = {"quick": {"runs": 4000, "wall": 300}, "thorough": {"runs": 120000, "wall": 1800}}
+TIERS = {"quick": {"runs": 4000, "wall": 300}, "thorough": {"runs": 120000, "wall": 1800, "chunk": 20}}
 RULE = (
     "Each run draws one workload from the tape (dataset 12-60 points, 1-3 components, weights or not, 1-D/2-D arrays; "
     "estimator Trend/Spline/KNeighbors/Linear/Chain/Vector/VectorSpline2D; cross-validator default/KFold/ShuffleSplit/"
